@@ -84,7 +84,7 @@ class Analyzer:
                 self.analyze(c['name'], stack + (name,))
         for _, _, st in fn.stmts():
             rv = st.get('rv')
-            if rv and rv['k'] == 'aggr' and rv.get('akind') == 'closure' and rv['closure'] in self.F.fns:
+            if rv and rv['k'] == 'aggr' and rv.get('akind') == 'closure' and rv['closure'] in self.F.fns and rv['closure'] not in getattr(self.F, 'fully_inlined', ()):
                 self.analyze(rv['closure'], stack + (name,))
         fa = FnAnalysis(self, fn)
         sites = fa.run()
